@@ -59,10 +59,14 @@ func (u *upConn) Write(p []byte) (int, error) {
 	u.got = append(u.got, p...)
 	return len(p), nil
 }
-func (u *upConn) Close() error                       { u.closed++; return nil }
-func (u *upConn) CloseWrite() error                  { u.closeW++; u.gotAtCW = len(u.got); return nil }
-func (u *upConn) LocalAddr() net.Addr                { return &net.TCPAddr{IP: net.IP{10, 9, 9, 9}, Port: 5000 + u.id} }
-func (u *upConn) RemoteAddr() net.Addr               { return &net.TCPAddr{IP: net.IP{10, 0, 0, byte(1 + u.id)}, Port: 80} }
+func (u *upConn) Close() error      { u.closed++; return nil }
+func (u *upConn) CloseWrite() error { u.closeW++; u.gotAtCW = len(u.got); return nil }
+func (u *upConn) LocalAddr() net.Addr {
+	return &net.TCPAddr{IP: net.IP{10, 9, 9, 9}, Port: 5000 + u.id}
+}
+func (u *upConn) RemoteAddr() net.Addr {
+	return &net.TCPAddr{IP: net.IP{10, 0, 0, byte(1 + u.id)}, Port: 80}
+}
 func (u *upConn) SetDeadline(t time.Time) error      { return nil }
 func (u *upConn) SetReadDeadline(t time.Time) error  { return nil }
 func (u *upConn) SetWriteDeadline(t time.Time) error { return nil }
@@ -70,9 +74,9 @@ func (u *upConn) SetWriteDeadline(t time.Time) error { return nil }
 // ---- dial environment --------------------------------------------------------------------------
 
 var (
-	dials     []string          // addresses dialled, in order
-	dialTimes []int64           // virtual instants of the dials
-	dialFail  func(i int) bool  // does dial number i fail?
+	dials     []string         // addresses dialled, in order
+	dialTimes []int64          // virtual instants of the dials
+	dialFail  func(i int) bool // does dial number i fail?
 	mkUp      func(i int) *upConn
 	ups       []*upConn
 	errDial   = errors.New("dial tcp: connection refused")
@@ -284,8 +288,8 @@ func VH_retry() {
 // halfConn is a client that supports half-close.
 type halfConn struct {
 	*env.SymConn
-	cw   int
-	wAt  int
+	cw  int
+	wAt int
 }
 
 func (c *halfConn) CloseWrite() error { c.cw++; c.wAt = len(c.Written); return nil }
